@@ -303,10 +303,10 @@ func init() {
 				"gc_worker is re-created on the three stated paths (no keys, no valid safe point, gc_worker missing)", P.pos(loadMin.Pos()), fmt.Sprintf("found %d", n))
 			c.need("C15/gc-worker-recreated", loadMin, "return min", func(i ssa.Instruction) bool {
 				r, ok := i.(*ssa.Return)
-				if !ok || len(r.Results) != 2 || !isNilConst(r.Results[1]) {
+				if !ok || len(r.Results) != 2 || !retIsNilErr(r) {
 					return false
 				}
-				cl, _ := callOf(r.Results[0])
+				cl, _ := callOf(retVal(r, 0))
 				return cl == nil // the plain `return min, nil`
 			}, []Ev{&guardEv{name: "hasGCWorker", match: func(cond ssa.Value, pos bool) bool {
 				_, isPhi := cond.(*ssa.Phi)
